@@ -14,14 +14,20 @@ def calls(f: Func, name: str) -> t.List[ast.Call]:
     return sorted([n for n in body_nodes(f.node) if isinstance(n, ast.Call) and unparse(n.func) == name], key=lambda n: n.lineno)
 
 
-def argmap(repo: Repo, call: ast.Call, callee: t.Optional[Func]) -> t.Dict[str, str]:
+def argmap(repo: Repo, call: ast.Call, callee: t.Optional[Func], rd: t.Optional[ReachingDefs] = None) -> t.Dict[str, str]:
+    """parameter name -> argument expression; with `rd` in provenance normal form (locals replaced by what defines them)."""
+    from sa.flow import provenance
+
+    def txt(e: ast.expr) -> str:
+        return provenance(rd, e, call) if rd is not None else unparse(e)
+
     out: t.Dict[str, str] = {}
     params = [p for p in (callee.params if callee else []) if p not in ("self", "cls")]
     for i, a in enumerate(call.args):
-        out[params[i] if i < len(params) else str(i)] = unparse(a)
+        out[params[i] if i < len(params) else str(i)] = txt(a)
     for k in call.keywords:
         if k.arg:
-            out[k.arg] = unparse(k.value)
+            out[k.arg] = txt(k.value)
     return out
 
 
@@ -51,22 +57,14 @@ def run(repo: Repo, chk: Check) -> None:
     kn, kg = calls(new_kek, "kdf"), calls(get_kek, "kdf")
     if len(kn) != 1 or len(kg) != 1:
         raise AnalysisError("nonce-mode kdf call sites changed")
-    expect(chk, "O1", new_kek, kn[0], argmap(repo, kn[0], kdf), {"algorithm": "hash_algo", "secret": "self.l2_key", "label": "KDS_SERVICE_LABEL", "context": "key_info", "length": "32"}, "encrypt side KEK = KDF(hash, L2 key, label, nonce, 32)")
-    expect(chk, "O1", get_kek, kg[0], argmap(repo, kg[0], kdf), {"algorithm": "hash_algo", "secret": "l2_key", "label": "KDS_SERVICE_LABEL", "context": "key_id.key_info", "length": "32"}, "decrypt side KEK = KDF(hash, L2 key, label, stored nonce, 32)")
+    H = "KDFParameters.unpack(self.kdf_parameters).hash_algorithm"
+    L2 = "compute_l2_key(KDFParameters.unpack(self.kdf_parameters).hash_algorithm, key_id.l1, key_id.l2, self)"
+    rdn0, rdg0 = ReachingDefs(new_kek), ReachingDefs(get_kek)
+    expect(chk, "O1", new_kek, kn[0], argmap(repo, kn[0], kdf, rdn0), {"algorithm": H, "secret": "self.l2_key", "label": "KDS_SERVICE_LABEL", "context": "os.urandom(32)", "length": "32"}, "encrypt side KEK = KDF(hash of the envelope's KDF parameters, L2 key, label, fresh nonce, 32)")
+    expect(chk, "O1", get_kek, kg[0], argmap(repo, kg[0], kdf, rdg0), {"algorithm": H, "secret": L2, "label": "KDS_SERVICE_LABEL", "context": "key_id.key_info", "length": "32"}, "decrypt side KEK = KDF(same hash, L2 key of the blob's position, label, stored nonce, 32)")
     for f in (new_kek, get_kek):
-        rd = ReachingDefs(f)
-        k = calls(f, "kdf")[0]
-        d = rd.single_def("hash_algo", k)
-        ok = d is not None and d.value is not None and unparse(d.value) == "kdf_parameters.hash_algorithm"
-        d2 = rd.single_def("kdf_parameters", k)
-        ok = ok and d2 is not None and d2.value is not None and unparse(d2.value) == "KDFParameters.unpack(self.kdf_parameters)"
-        chk.ob("O1", Site.of(f, k, f"{f.name}: hash algorithm"), ok, "hash = KDFParameters.unpack(self.kdf_parameters).hash_algorithm" if ok else "the KDF hash is not taken from the envelope's KDF parameters on this side")
         guard = [n for n in body_nodes(f.node) if isinstance(n, ast.If) and unparse(n.test) == "self.kdf_algorithm != 'SP800_108_CTR_HMAC'" and any(isinstance(x, ast.Raise) for x in n.body)]
         chk.ob("O1", Site.of(f, construct=f"{f.name}: KDF algorithm check"), bool(guard), "only SP800_108_CTR_HMAC is accepted")
-    rdg = ReachingDefs(get_kek)
-    d = rdg.single_def("l2_key", kg[0])
-    okl = d is not None and d.value is not None and unparse(d.value) == "compute_l2_key(hash_algo, key_id.l1, key_id.l2, self)"
-    chk.ob("O1", Site.of(get_kek, d.stmt if d is not None else None, None if d is not None else "l2_key"), okl, "decrypt side derives the L2 key of the blob's (L1, L2) from this envelope" if okl else "l2_key is not compute_l2_key(hash_algo, key_id.l1, key_id.l2, self)")
     # mode switch on the right flags
     ifn = [n for n in body_nodes(new_kek.node) if isinstance(n, ast.If) and unparse(n.test) == "self.is_public_key"]
     ifg = [n for n in body_nodes(get_kek.node) if isinstance(n, ast.If) and unparse(n.test) == "key_id.is_public_key"]
@@ -81,22 +79,15 @@ def run(repo: Repo, chk: Check) -> None:
     c_get = calls(get_kek, "compute_kek_from_public_key")
     if len(c_new) != 1 or len(c_get) != 1:
         raise AnalysisError("public-key mode call sites changed")
-    expect(chk, "O2", new_kek, c_new[0], argmap(repo, c_new[0], ck), {"algorithm": "hash_algo", "secret_algorithm": "self.secret_algorithm", "secret_parameters": "self.secret_parameters", "private_key": "private_key", "public_key": "self.l2_key"}, "encrypt side compute_kek")
-    expect(chk, "O2", get_kek, c_get[0], argmap(repo, c_get[0], ckp), {"algorithm": "hash_algo", "seed": "l2_key", "secret_algorithm": "self.secret_algorithm", "secret_parameters": "self.secret_parameters", "public_key": "key_id.key_info", "private_key_length": "math.ceil(self.private_key_length / 8)"}, "decrypt side compute_kek_from_public_key")
-    rdn = ReachingDefs(new_kek)
-    dpk = rdn.single_def("private_key", c_new[0])
-    okp = dpk is not None and dpk.value is not None and unparse(dpk.value) == "os.urandom(math.ceil(self.private_key_length / 8))"
-    chk.ob("O2", Site.of(new_kek, dpk.stmt if dpk is not None else None, None if dpk is not None else "private key"), okp, "both sides use ceil(private_key_length / 8) bytes of private key" if okp else "the encrypt side's private key length is not the ceil(private_key_length / 8) the decrypt side derives")
+    expect(chk, "O2", new_kek, c_new[0], argmap(repo, c_new[0], ck, rdn0), {"algorithm": H, "secret_algorithm": "self.secret_algorithm", "secret_parameters": "self.secret_parameters", "private_key": "os.urandom(math.ceil(self.private_key_length / 8))", "public_key": "self.l2_key"}, "encrypt side compute_kek with ceil(private_key_length / 8) fresh bytes")
+    expect(chk, "O2", get_kek, c_get[0], argmap(repo, c_get[0], ckp, rdg0), {"algorithm": H, "seed": L2, "secret_algorithm": "self.secret_algorithm", "secret_parameters": "self.secret_parameters", "public_key": "key_id.key_info", "private_key_length": "math.ceil(self.private_key_length / 8)"}, "decrypt side compute_kek_from_public_key with the same private key length")
     # compute_kek_from_public_key: private key = KDF(hash, L2 seed, label, secret_algorithm||0, n); then compute_kek
     kk = calls(ckp, "kdf")
     cc = calls(ckp, "compute_kek")
     if len(kk) != 1 or len(cc) != 1:
         raise AnalysisError("compute_kek_from_public_key changed")
     expect(chk, "O2", ckp, kk[0], argmap(repo, kk[0], kdf), {"algorithm": "algorithm", "secret": "seed", "label": "KDS_SERVICE_LABEL", "context": "(secret_algorithm + '\\x00').encode('utf-16-le')", "length": "private_key_length"}, "private key = KDF(hash, L2 key, label, algorithm name, length)")
-    expect(chk, "O2", ckp, cc[0], argmap(repo, cc[0], ck), {"algorithm": "algorithm", "secret_algorithm": "secret_algorithm", "secret_parameters": "secret_parameters", "private_key": "private_key", "public_key": "public_key"}, "then the same compute_kek as the encrypt side")
-    rdp = ReachingDefs(ckp)
-    d = rdp.single_def("private_key", cc[0])
-    chk.ob("O2", Site.of(ckp, cc[0]), d is not None and d.value is kk[0], "the derived private key is the one used")
+    expect(chk, "O2", ckp, cc[0], argmap(repo, cc[0], ck, ReachingDefs(ckp)), {"algorithm": "algorithm", "secret_algorithm": "secret_algorithm", "secret_parameters": "secret_parameters", "private_key": "kdf(algorithm, seed, KDS_SERVICE_LABEL, (secret_algorithm + '\\x00').encode('utf-16-le'), private_key_length)", "public_key": "public_key"}, "then the same compute_kek as the encrypt side, keyed with the derived private key")
     rets = [n for n in body_nodes(ckp.node) if isinstance(n, ast.Return)]
     chk.ob("O2", Site.of(ckp, rets[0] if rets else None, None if rets else "return"), len(rets) == 1 and rets[0].value is cc[0], "returns that KEK")
     compute_kek_recipe(repo, chk, ck)
